@@ -460,9 +460,9 @@ func segSpread(seed int64, thorough bool, zoneCount int, part int) *segment {
 	for _, k := range ks {
 		zs := rnd.Perm(zoneCount)
 		nz := 1
-		if k <= 64 {
+		if k <= 16 {
 			nz = zoneCount
-		} else if thorough && zoneCount > 1 {
+		} else if (k <= 64 || thorough) && zoneCount > 1 {
 			nz = 2
 		}
 		for _, z := range zs[:nz] {
@@ -785,6 +785,66 @@ func segPartitions(seed int64, thorough bool, n int) *segment {
 
 // ---------------------------------------------------------------------------------------------
 
+// corrupt is the sensitivity self-test of the validator (never set by bin/check): it falsifies ONE
+// logged field after recording, as if the code had returned something else.
+//
+//	swap-out   two neighbouring tokens of a call's output are exchanged (not sorted)
+//	dup-out    a call's output repeats its first token (duplicate)
+//	drop-out   a call's output loses its last token (too few / not the first free ones)
+//	leak-taken a spread call's output gets a token of its taken set
+//	lo-limb    one token of an observed reserve has its low limb changed by 1 (congruence, reproducibility)
+//	canjoin    one CanJoin verdict is inverted
+func corrupt(segs []*segment, how string) {
+	if how == "" {
+		return
+	}
+	for _, sg := range segs {
+		if sg == nil {
+			continue
+		}
+		for _, e := range sg.events {
+			switch {
+			case how == "swap-out" && e["ev"] == "call":
+				if out, ok := e["out"].([]limb); ok && len(out) >= 3 {
+					out[1], out[2] = out[2], out[1]
+					return
+				}
+			case how == "dup-out" && e["ev"] == "call":
+				if out, ok := e["out"].([]limb); ok && len(out) >= 3 {
+					out[1] = out[0]
+					return
+				}
+			case how == "drop-out" && e["ev"] == "call":
+				if out, ok := e["out"].([]limb); ok && len(out) >= 3 {
+					e["out"] = out[:len(out)-1]
+					return
+				}
+			case how == "leak-taken" && e["ev"] == "call":
+				out, ok := e["out"].([]limb)
+				taken, ok2 := e["taken"].([]limb)
+				if ok && ok2 && len(out) >= 1 && len(taken) >= 1 && e["member"] == -1 {
+					out[len(out)-1] = taken[0]
+					slices.SortFunc(out, func(a, b limb) int {
+						if a[0] != b[0] {
+							return a[0] - b[0]
+						}
+						return a[1] - b[1]
+					})
+					return
+				}
+			case how == "lo-limb" && e["ev"] == "observe":
+				if toks, ok := e["toks"].([]limb); ok && len(toks) > 100 {
+					toks[100][1] ^= 1
+					return
+				}
+			case how == "canjoin" && e["ev"] == "canjoin":
+				e["ok"] = !(e["ok"].(bool))
+				return
+			}
+		}
+	}
+}
+
 func TestRecord(t *testing.T) {
 	dir := os.Getenv("VERIF_TRACE_DIR")
 	if dir == "" {
@@ -843,6 +903,7 @@ func TestRecord(t *testing.T) {
 		}(i, j)
 	}
 	wg.Wait()
+	corrupt(segs, os.Getenv("VERIF_C16_CORRUPT"))
 	files := []string{}
 	for i, sg := range segs {
 		if sg == nil || len(sg.events) == 0 {
